@@ -221,3 +221,123 @@ Section WP.
         rewrite <- Hxk, Nat.eqb_refl in Hne. discriminate.
   Qed.
 End WP.
+
+(* ---------- patch-mode precedence and independence of the execution ---------- *)
+Section ModeP.
+  Context {A : Type}.
+  Implicit Types (near : option (A -> nat)) (input chunk : list (A * option nat)).
+
+  (* what patch p is to hold: the records whose deciding key is p, index column dropped *)
+  Definition selected near (p : nat) input : list A :=
+    map fst (filter (fun r => mode_key near r =? p) input).
+
+  Lemma entries_drop_column p (g : list (nat * list (A * option nat))) :
+    entries p (map (fun kv => (fst kv, map fst (snd kv))) g) = map fst (entries p g).
+  Proof.
+    induction g as [|[k v] g IH]; simpl; [reflexivity|].
+    destruct (k =? p); [rewrite map_app, IH|]; auto.
+  Qed.
+
+  Lemma filter_map_fst (f : A -> bool) chunk :
+    filter f (map fst chunk) = map fst (filter (fun r => f (fst r)) chunk).
+  Proof.
+    induction chunk as [|r l IH]; simpl; [reflexivity|].
+    destruct (f (fst r)); simpl; rewrite IH; reflexivity.
+  Qed.
+
+  (* split_into_patches gives patch p exactly the selected records of the chunk, in order *)
+  Lemma split_rows_entries near p chunk : entries p (split_rows near chunk) = selected near p chunk.
+  Proof.
+    unfold split_rows, selected. destruct near as [f|]; simpl.
+    - rewrite entries_groupby, filter_map_fst. reflexivity.
+    - rewrite entries_drop_column, entries_groupby. reflexivity.
+  Qed.
+
+  Lemma selected_concat near p (ls : list (list (A * option nat))) :
+    selected near p (concat ls) = concat (map (selected near p) ls).
+  Proof.
+    unfold selected. induction ls as [|l ls IH]; simpl; [reflexivity|].
+    rewrite filter_app, map_app, IH. reflexivity.
+  Qed.
+
+  Lemma messages_mode_entries near cs workers input p :
+    1 <= cs -> 1 <= workers ->
+    concat (map (entries p) (messages_mode near cs workers input)) = selected near p input.
+  Proof.
+    intros Hcs Hw. unfold messages_mode.
+    rewrite <- (chunks_concat cs input Hcs) at 2.
+    rewrite selected_concat. generalize (chunks cs input) as cks. intros cks.
+    induction cks as [|c cks IH]; simpl; [reflexivity|].
+    rewrite map_app, concat_app, IH. f_equal.
+    rewrite <- (array_split_concat workers c Hw) at 2.
+    rewrite selected_concat, map_map. f_equal.
+    apply map_ext. intros s. apply split_rows_entries.
+  Qed.
+
+  Lemma messages_mode_seq_entries near cs input p :
+    1 <= cs ->
+    concat (map (entries p) (messages_mode_seq near cs input)) = selected near p input.
+  Proof.
+    intros Hcs. unfold messages_mode_seq.
+    rewrite <- (chunks_concat cs input Hcs) at 2.
+    rewrite selected_concat, map_map. f_equal. apply map_ext. intros s. apply split_rows_entries.
+  Qed.
+
+  (* every execution (sequential, or a pool of any size delivering in any order), any chunk size,
+     any buffer size: patch p stores the records selected by the deciding key *)
+  Theorem execution_stores_selected near cs workers (bs : Z) input pi p :
+    1 <= cs -> is_execution near cs workers input pi ->
+    Permutation (stored (run_writer bs pi) p) (selected near p input).
+  Proof.
+    intros Hcs Hex. rewrite catalog_writer_no_loss. destruct workers as [|w]; simpl in Hex.
+    - subst pi. rewrite messages_mode_seq_entries by exact Hcs. apply Permutation_refl.
+    - rewrite <- (messages_mode_entries near cs (S w) input p Hcs) by lia.
+      apply concat_map_perm. exact Hex.
+  Qed.
+
+  (* the per-patch multisets do not depend on chunk size, buffer size, number of workers or
+     the delivery order: any two executions of the same call on the same input agree *)
+  Theorem executions_agree near cs cs' workers workers' (bs bs' : Z) input pi pi' p :
+    1 <= cs -> 1 <= cs' ->
+    is_execution near cs workers input pi -> is_execution near cs' workers' input pi' ->
+    Permutation (stored (run_writer bs pi) p) (stored (run_writer bs' pi') p).
+  Proof.
+    intros Hcs Hcs' H H'.
+    etransitivity; [apply (execution_stores_selected near cs workers bs input pi p Hcs H)|].
+    apply Permutation_sym. apply (execution_stores_selected near cs' workers' bs' input pi' p Hcs' H').
+  Qed.
+
+  (* documented precedence: with centres the nearest centre decides, whatever the index column
+     holds and whether or not there is one *)
+  Theorem centres_take_precedence (f : A -> nat) cs workers (bs : Z) input pi p :
+    1 <= cs -> is_execution (Some f) cs workers input pi ->
+    Permutation (stored (run_writer bs pi) p) (filter (fun x => f x =? p) (map fst input)).
+  Proof.
+    intros Hcs Hex. rewrite filter_map_fst.
+    apply (execution_stores_selected (Some f) cs workers bs input pi p Hcs Hex).
+  Qed.
+
+  (* ... so that replacing or removing the index column changes nothing *)
+  Theorem index_column_ignored_with_centres (f : A -> nat) cs cs' workers workers' (bs bs' : Z)
+          input input' pi pi' p :
+    1 <= cs -> 1 <= cs' -> map fst input = map fst input' ->
+    is_execution (Some f) cs workers input pi -> is_execution (Some f) cs' workers' input' pi' ->
+    Permutation (stored (run_writer bs pi) p) (stored (run_writer bs' pi') p).
+  Proof.
+    intros Hcs Hcs' E H H'.
+    etransitivity; [apply (centres_take_precedence f cs workers bs input pi p Hcs H)|].
+    rewrite E. apply Permutation_sym. apply (centres_take_precedence f cs' workers' bs' input' pi' p Hcs' H').
+  Qed.
+
+  (* without centres the index column names the patch *)
+  Theorem index_column_names_patch (col : A -> nat) cs workers (bs : Z) (xs : list A) pi p :
+    1 <= cs -> is_execution None cs workers (map (fun x => (x, Some (col x))) xs) pi ->
+    Permutation (stored (run_writer bs pi) p) (filter (fun x => col x =? p) xs).
+  Proof.
+    intros Hcs Hex.
+    pose proof (execution_stores_selected None cs workers bs _ pi p Hcs Hex) as H.
+    eapply Permutation_trans; [exact H|]. clear H Hex.
+    unfold selected. induction xs as [|x xs IH]; simpl; [constructor|].
+    unfold col_key at 1. simpl. destruct (col x =? p); simpl; [constructor|]; exact IH.
+  Qed.
+End ModeP.
